@@ -29,7 +29,7 @@ enum KdfMode { KDF_FIXED, KDF_MIX, KDF_NOTOUCH };
 // libc interposition counters (only meaningful in binaries linked with -Wl,--wrap=malloc,--wrap=free,--wrap=time; see props/c18)
 struct Wrap { bool enabled = false; bool window = false; int in_stub = 0; uint64_t malloc_calls = 0, free_calls = 0, time_calls = 0; };
 inline Wrap& wrap() { static Wrap w; return w; }
-struct StubScope { StubScope() { wrap().in_stub++; } ~StubScope() { wrap().in_stub--; } };
+struct StubScope { bool on; StubScope() : on(wrap().enabled) { if (on) wrap().in_stub++; } ~StubScope() { if (on) wrap().in_stub--; } };   // no shared writes unless interposition is in use (C20 runs many threads)
 enum MzMode { MZ_WIPE, MZ_MARK, MZ_NOOP };
 
 struct Kit {
